@@ -23,6 +23,14 @@ def run(R):
         raise vlib.MachineryError("vacuity: broken unpad loop (scans blocksize-1 bytes) is not rejected")
     R.add("states", r.distinct); R.add("transitions", r.generated)
     R.cov["model"] = {"module": "MCPadMachine", "distinct": r.distinct, "generated": r.generated, "broken_variants_rejected": 1}
+    # the length arithmetic of sodium_pad on the real 64-bit word, every (length, block size, capacity): Apalache (SMT)
+    okp, outp, cexp = R.apalache("sys/PadLenAll.tla", "AllOK", cinit="ConstInit", length=1)
+    if not okp:
+        R.violation("PadLenAll.tla: the padded length computed by sodium_pad is not the next multiple of the block size within the capacity "
+                    "for some 64-bit (length, block size, capacity): " + cexp[-1200:], {"apalache": outp[-3000:], "counterexample": cexp}, name="unbounded")
+    if R.apalache("sys/PadLenAll.tla", "AllOK", cinit="ConstInitNoMisuse", length=0)[0]:
+        raise vlib.MachineryError("vacuity: sodium_pad without its wrap test is not refuted by PadLenAll!Exact")
+    R.cov["unbounded_smt"] = {"module": "PadLenAll", "invariant": "Exact", "domain": "every 64-bit length, block size >= 1, capacity", "broken_variants_refuted": 1}
     variants = ["native", "portable"]
     R.build_all(variants)
     files = []
